@@ -511,8 +511,30 @@ Fixpoint c10exp_from (cfg : config) (lin : list (id * N)) (exps born : list (N *
 Definition mon_C10x (c : syscase) : N :=
   match mon_C10 c with 0 => with_cfg (fun cfg ops xs => c10exp_from cfg [] [] [] 0 0%Z ops xs) c | k => k end.
 
+(* C17 clause 4: a callback is served (next page, or a navigation back to the client) only before the
+   session timeout, counted from the /authorize request that started the interaction - intermediate
+   steps do not move the deadline.  3 s of slack for the real clock's granularity. *)
+Fixpoint c17dl_from (cfg : config) (cbt : list (id * Z)) (k : nat) (now : Z) (ops : list op) (xs : list obs) : N :=
+  match ops, xs with
+  | o :: ops', x :: xs' =>
+      let late (cb : id) : bool :=
+        match lookup cb cbt with Some t0 => Z.leb (t0 + cf_session_timeout cfg + 3) now | None => false end in
+      match o, x with
+      | OpTick d, _ => c17dl_from cfg cbt (S k) (now + d)%Z ops' xs'
+      | OpAuthorize r, Out (OPage cb) => c17dl_from cfg ((cb, now) :: cbt) (S k) now ops' xs'
+      | OpCallback r, Out (OPage _) => if late (cb_id r) then viol 4 k else c17dl_from cfg cbt (S k) now ops' xs'
+      | OpCallback r, Out (ONav _ _ _) => if late (cb_id r) then viol 4 k else c17dl_from cfg cbt (S k) now ops' xs'
+      | _, _ => c17dl_from cfg cbt (S k) now ops' xs'
+      end
+  | _, _ => 0
+  end.
+
 Definition mon_C17 (c : syscase) : N :=
-  match mon_C17a c with 0 => with_cfg (fun cfg ops xs => c17iso_from cfg [] [] 0 ops xs) c | k => k end.
+  match mon_C17a c with
+  | 0 => match with_cfg (fun cfg ops xs => c17iso_from cfg [] [] 0 ops xs) c with
+         | 0 => with_cfg (fun cfg ops xs => c17dl_from cfg [] 0 0%Z ops xs) c
+         | k => k end
+  | k => k end.
 
 (* ================================================================================== *)
 (* C02: every navigation targets a URI registered for the client, or one that this client pushed
